@@ -68,7 +68,37 @@ fn strings_upto(alpha: &[char], max: usize) -> Vec<String> {
   all
 }
 
+/// pre_process_pattern on text with multi-byte characters around the sigils (the rewrite works on characters, not bytes)
+fn stream_preprocess_wide(o: &Opts, out: &mut Out) {
+  let alpha = ['$', 'A', 'é', '日', ' '];
+  let strs = strings_upto(&alpha, if o.thorough { 6 } else { 5 });
+  for lang in SupportLang::all_langs() {
+    let expando = lang.expando_char();
+    for s in &strs {
+      if s.is_ascii() {
+        continue;
+      }
+      let pre = std::panic::catch_unwind(|| lang.pre_process_pattern(s).to_string());
+      out.checked();
+      match pre {
+        Ok(pre) => {
+          out.case(2, &vl![Val::Z(expando as i128), Val::chars(s)], &Val::chars(&pre), &format!("pre_process_pattern lang={lang} s={s:?}"));
+          // direct oracle: only sigils change, one for one
+          let ok = pre.chars().count() == s.chars().count() && pre.chars().zip(s.chars()).all(|(a, b)| a == b || (b == '$' && a == expando));
+          if !ok {
+            out.oracle_fail("", &format!("lang={lang}: pre-processing the pattern {s:?} gives {pre:?}: something other than sigils changed"), serde_json::json!({"stream": "c20-preprocess", "lang": lang.to_string(), "pattern": s}));
+          }
+        }
+        Err(_) => {
+          out.oracle_fail("", &format!("lang={lang}: pre-processing the pattern {s:?} panics"), serde_json::json!({"stream": "c20-preprocess", "lang": lang.to_string(), "pattern": s}));
+        }
+      }
+    }
+  }
+}
+
 fn stream_extract(o: &Opts, out: &mut Out) {
+  stream_preprocess_wide(o, out);
   let alpha = ['$', 'A', 'a', '_', '1'];
   let max = if o.thorough { 7 } else { 5 };
   let strs = strings_upto(&alpha, max);
